@@ -545,6 +545,20 @@ def u_c11c():
     return u.finish()
 
 
+def u_c18c():
+    """Vanish and gift wraps whose p value only LOOKS like the vanished key in the 182-byte index key (the key followed by NUL, a
+    value that has the key as a prefix): they do not name it and stay."""
+    u = Universe("c18c", nauthors=2, nabsent=1)
+    A, B = 1, 2
+    pa = u.pubkeys[A - 1].hex().encode()
+    u.add(B, 1059, 10, [["p", pa + b"\x00"]], clen=5)                 # 1 the key followed by NUL: not A
+    u.add(B, 1059, 11, [["p", ("pk", A)]], clen=6)                     # 2 a gift wrap to A
+    u.add(A, 1, 12, [["t", "x"]], clen=7)                              # 3 A's note
+    u.add(B, 1059, 13, [["p", pa + b"ff"]], clen=8)                    # 4 the key as a prefix of a longer value: not A
+    u.add(B, 1, 14, [["p", ("pk", A)]], clen=9)                        # 5 B's note mentioning A: not a gift wrap, stays
+    return u.finish()
+
+
 def u_c11b():
     """Deletion requests with several targets where an earlier-listed address is already covered, and addresses
     whose d value contains the ':' separator."""
@@ -654,7 +668,7 @@ def u_exp(now):
     return u.finish()
 
 
-CURATED = dict(c11c=u_c11c, c18b=u_c18b, c09d=u_c09d, many=u_many, c09t=u_c09t, c10e=u_c10e, c12y=u_c12y, c14b=u_c14b, c10d=u_c10d, qv=u_qv, c09c=u_c09c, c10c=u_c10c, c16=u_c16, c11b=u_c11b, c12x=u_c12x, c09b=u_c09b, c10b=u_c10b, sz=u_sz, core=u_core, c09=u_c09, c10=u_c10, c11=u_c11, c18=u_c18, q=u_q)
+CURATED = dict(c18c=u_c18c, c11c=u_c11c, c18b=u_c18b, c09d=u_c09d, many=u_many, c09t=u_c09t, c10e=u_c10e, c12y=u_c12y, c14b=u_c14b, c10d=u_c10d, qv=u_qv, c09c=u_c09c, c10c=u_c10c, c16=u_c16, c11b=u_c11b, c12x=u_c12x, c09b=u_c09b, c10b=u_c10b, sz=u_sz, core=u_core, c09=u_c09, c10=u_c10, c11=u_c11, c18=u_c18, q=u_q)
 
 
 # ------------------------------------------------------------------------------------------------
